@@ -427,6 +427,12 @@ def check(prop, tier="quick", seed=0, procs=None, verbose=False):
     # proof; a failing input is a violation with a replayable witness)
     if (undecided or tier == "thorough") and not violations:
         bj, bdesc = prop.bounded(tier, seed)
+        if (getattr(prop, "wf", False) and hasattr(prop, "accepted_neighbourhood") and prop.id != "C04"
+                and any(t in u["unit"] for u in undecided for t in ("parse_vector", "check_mandatory", "__init__", "from_rh_vector"))):
+            # the undecided part is the parser / constructor: what it accepts is part of the question
+            aj, adesc = prop.accepted_neighbourhood(tier)
+            bj = aj + list(bj)
+            bdesc = adesc + "; " + bdesc
         bj = with_known(prop.id, bj)
         bounded_info = {"bound": bdesc, "inputs": len(bj), "failed": 0,
                         "role": "stand-in for undecided obligations" if undecided else "supplementary exploration (thorough tier)"}
